@@ -18,6 +18,17 @@ def global_array(shape, dtype, k=0):
     return G
 
 
+def zero_bands(G):
+    """copy of G that is exactly zero on half of every axis (whole sender-by-receiver tiles of a distributed array vanish):
+    data movement must not depend on the values moved"""
+    Z = np.array(G, copy=True)
+    for ax in range(Z.ndim):
+        sl = [slice(None)] * Z.ndim
+        sl[ax] = slice(0, max(1, Z.shape[ax] // 2)) if ax % 2 == 0 else slice(Z.shape[ax] // 2, None)
+        Z[tuple(sl)] = 0
+    return Z
+
+
 def poison_value(dtype):
     dt = np.dtype(DTYPES[dtype] if isinstance(dtype, str) else dtype)
     if dt.kind == 'i':
